@@ -2,9 +2,15 @@
 
 D1 trace-only code has no effect on the run (no rebinding / mutation of run state, live user
    objects are only handed to overridable code inside a containing try, never consumed),
-D1b uncontained serialisation sinks of the trace path receive JSON-safe values only,
-D2 no accumulating per-object / module state feeds the stream,
+D1b uncontained serialisation sinks of the trace path receive JSON-safe values only (own producer rules: the leaves
+   of the sweep domain signature on the normal form, by value forms of what is returned; canonical nodes appended only
+   on paths through a successful json.dumps of the node - CFG, list found by its role in the returned mapping),
+D2 no accumulating per-object / module state feeds the stream (a module-level literal table that is only read is a
+   constant), and no object identity / process state / clock reaches a stable field (taint from id, hash,
+   object.__repr__, random, time, uuid4 to what the trace-path functions return, persist or write; the volatile
+   producers - timing block, run id, driver timestamp - are found by role),
 D3 driver calls are gated on the trace being present.
+Run state of execute and live parameters of the helpers are found by role / declared type, not by spelling.
 """
 from __future__ import annotations
 
@@ -104,7 +110,7 @@ def run(repo: Repo, R: Report) -> None:
     if len(trace_blocks) < 4:
         raise AnalysisError("execute(): trace-guarded blocks not recognised")
     run_state = RUN_STATE | _run_state_by_role(ex, trace_blocks)
-    R.note(f"run state of execute (by role): {sorted(run_state - RUN_STATE)}") if hasattr(R, "note") else None
+    R.note(f"run state of execute found by role: {sorted(run_state)}")
     for blk in trace_blocks:
         body_mod = ast.Module(body=blk.body, type_ignores=[])
         stored = set()
@@ -143,8 +149,7 @@ def run(repo: Repo, R: Report) -> None:
     # ------------------------------------------------------------------ D1 containment of hooks on live objects
     r_cont = R.rule("C10-D1-hook-containment", "trace code hands live payload/context values to user-overridable code (len, repr, to_bytes, to_json, serialisation) only inside a try that contains Exception; it never consumes them (list/iter/sorted/for over an object not known to be re-iterable)", 10)
     for rel, qn, f in helper_fns:
-        params = {a.arg for a in f.args.args}
-        live = params & LIVE_PARAMS
+        live = _live_params(f)
         if not live:
             continue
         for c in calls_in(f):
@@ -164,7 +169,7 @@ def run(repo: Repo, R: Report) -> None:
                 if not _guarded_reiterable(c, a.id):
                     R.violation(r_cont, rel, qn, norm(stmt_of(c))[:90], f"`{name}({a.id})` consumes an arbitrary live object (a one-shot iterator in the payload is drained by tracing before/after the node sees it)", c.lineno)
         for n in walk_no_nested(f):
-            if isinstance(n, (ast.For, ast.comprehension)) and isinstance(n.iter, ast.Name) and n.iter.id in live and n.iter.id in ("o", "obj", "data", "value", "v"):
+            if isinstance(n, (ast.For, ast.comprehension)) and isinstance(n.iter, ast.Name) and n.iter.id in _opaque_params(f):
                 if not _guarded_reiterable(n if isinstance(n, ast.For) else n.iter, n.iter.id):
                     R.violation(r_cont, rel, qn, norm(n if isinstance(n, ast.For) else n.iter)[:90], "iteration over an arbitrary live object inside trace code", getattr(n, "lineno", f.lineno))
 
@@ -472,3 +477,286 @@ def _json_safe_producers(repo: Repo, R: Report) -> None:
                         bad = f"`{norm(n)[:60]}` stores an unsanitised value into the node after (or without) the json.dumps that vouches for it"
                         break
         R.check(not bad, r, GRAPH, "build_canonical_spec", f"a canonical node is json-dumped before it is appended ({norm(c)[:40]})", bad + ": canonical nodes are no longer serialised when built, so a non-JSON parameter is only discovered when the traced run hashes / writes the spec (the untraced run succeeds)", c.lineno)
+
+
+# ---------------------------------------------------------------------------------------------------------
+# D1: what the run is made of, found by role (so that renaming a local does not blind the effect rule)
+# ---------------------------------------------------------------------------------------------------------
+def _alias_sources(e: ast.AST) -> Set[str]:
+    """Names whose object (or an attribute of it) *e* merely passes on: `x`, `x.attr`, tuples of those."""
+    if isinstance(e, ast.Name):
+        return {e.id}
+    if isinstance(e, ast.Attribute):
+        return _alias_sources(e.value)
+    if isinstance(e, (ast.Tuple, ast.List)):
+        return {n for x in e.elts for n in _alias_sources(x)}
+    if isinstance(e, ast.Starred):
+        return _alias_sources(e.value)
+    return set()
+
+
+def _run_state_by_role(ex: ast.AST, trace_blocks: List[ast.If]) -> Set[str]:
+    """Locals of execute that carry the run: what is returned, what the node callable hands to `process`, the
+    objects those were read from (alias closure over plain assignments), the node being run and the sequence it
+    is taken from."""
+    in_trace = {id(x) for blk in trace_blocks for st in blk.body for x in ast.walk(st)}
+    state: Set[str] = set()
+    for n in walk_no_nested(ex):
+        if isinstance(n, ast.Return) and n.value is not None:
+            state |= {x.id for x in ast.walk(n.value) if isinstance(x, ast.Name) and isinstance(x.ctx, ast.Load)}
+    for n in ast.walk(ex):
+        if n is not ex and isinstance(n, FuncNode + (ast.Lambda,)) and any(call_attr(c) == "process" for c in ast.walk(n) if isinstance(c, ast.Call)):
+            bound = {a.arg for a in n.args.args + n.args.kwonlyargs}
+            state |= {x.id for x in ast.walk(n) if isinstance(x, ast.Name) and isinstance(x.ctx, ast.Load)} - bound
+    params = {a.arg for a in ex.args.args + ex.args.kwonlyargs}
+    state -= {"self", "cls"}
+    # classes / functions called are not state: keep names that are stored somewhere in execute or are parameters
+    stored = {x.id for x in ast.walk(ex) if isinstance(x, ast.Name) and isinstance(x.ctx, ast.Store)}
+    state &= stored | params
+    changed = True
+    while changed:
+        changed = False
+        for n in walk_no_nested(ex):
+            if id(n) in in_trace:
+                continue
+            new: Set[str] = set()
+            if isinstance(n, ast.Assign) and any(names_stored(t) & state for t in n.targets):
+                new = _alias_sources(n.value)
+            elif isinstance(n, ast.For) and names_stored(n.target) & state:
+                it = n.iter
+                if isinstance(it, ast.Call) and call_attr(it) in ("enumerate", "iter", "list", "tuple", "reversed", "zip"):
+                    new = {a for x in it.args for a in _alias_sources(x)}
+                else:
+                    new = _alias_sources(it)
+            new = (new & (stored | params)) - {"self", "cls"}
+            if not new <= state:
+                state |= new
+                changed = True
+    return state
+
+
+# ---------------------------------------------------------------------------------------------------------
+# D2: no object identity / process state / clock in the stable part of the stream
+# ---------------------------------------------------------------------------------------------------------
+JSONL = "semantiva/trace/drivers/jsonl.py"
+IDENTITY_CALLS = {
+    "id", "hash", "object.__repr__", "object.__str__", "object.__hash__", "object.__format__", "object.__reduce__",
+    "sys.getrefcount", "os.getpid", "os.getppid", "os.urandom", "threading.get_ident", "threading.get_native_id",
+    "threading.current_thread", "multiprocessing.current_process", "weakref.ref",
+}
+IDENTITY_PREFIXES = ("random.", "secrets.")
+CLOCK_CALLS = {
+    "datetime.now", "datetime.utcnow", "datetime.today", "datetime.datetime.now", "datetime.datetime.utcnow", "datetime.datetime.today",
+    "date.today", "datetime.date.today", "uuid.uuid1", "uuid.uuid4", "uuid.uuid6", "uuid.uuid7", "uuid1", "uuid4",
+    "time", "perf_counter", "monotonic", "process_time", "time_ns",
+}
+SINK_METHODS = _orch.DRIVER_METHODS | {"write", "writelines"}
+LOG_RECEIVERS = {"logger", "logging", "log", "warnings", "_logger", "LOGGER"}
+
+
+def _source_kind(c: ast.Call) -> Optional[str]:
+    d = call_name(c) or ""
+    if d in IDENTITY_CALLS or d.startswith(IDENTITY_PREFIXES):
+        return "identity"
+    if d in CLOCK_CALLS or (d.startswith("time.") and d.count(".") == 1):
+        return "clock"
+    return None
+
+
+def _flows_to_output(f: ast.AST, src: ast.Call) -> Optional[ast.AST]:
+    """Does the value of the call *src* reach what *f* returns / yields / hands to a driver or a file?  Name-level
+    taint over assignments, container stores and mutator calls; a comparison (`id(a) == id(b)`, `id(o) in seen`)
+    yields a bool that carries no identity, so taint stops there.  Returns the sink statement."""
+    tainted: Set[str] = set()
+
+    def carries(e: Optional[ast.AST]) -> bool:
+        if e is None:
+            return False
+        todo = [e]
+        while todo:
+            n = todo.pop()
+            if isinstance(n, ast.Compare):
+                continue
+            if n is src:
+                return True
+            if isinstance(n, ast.Name) and isinstance(n.ctx, ast.Load) and n.id in tainted:
+                return True
+            if isinstance(n, ast.Call) and isinstance(n.func, ast.Name) and n.func.id in ("len", "isinstance", "bool", "type", "callable"):
+                continue
+            todo.extend(ast.iter_child_nodes(n))
+        return False
+
+    def root(e: ast.AST) -> Optional[str]:
+        while isinstance(e, (ast.Attribute, ast.Subscript, ast.Starred)):
+            e = e.value
+        return e.id if isinstance(e, ast.Name) else None
+
+    changed = True
+    while changed:
+        changed = False
+        for n in ast.walk(f):
+            add: Set[str] = set()
+            if isinstance(n, ast.Assign) and carries(n.value):
+                for t in n.targets:
+                    add |= names_stored(t) | ({root(t)} if isinstance(t, (ast.Subscript, ast.Attribute)) else set())
+            elif isinstance(n, (ast.AnnAssign, ast.AugAssign)) and carries(n.value):
+                add |= names_stored(n.target) | ({root(n.target)} if isinstance(n.target, (ast.Subscript, ast.Attribute)) else set())
+            elif isinstance(n, ast.NamedExpr) and carries(n.value):
+                add.add(n.target.id)
+            elif isinstance(n, (ast.For, ast.comprehension)) and carries(n.iter):
+                add |= names_stored(n.target)
+            elif isinstance(n, ast.Call) and isinstance(n.func, ast.Attribute) and n.func.attr in GROWERS and any(carries(a) for a in list(n.args) + [k.value for k in n.keywords]):
+                add.add(root(n.func.value))
+            add -= {None, "self", "cls"}
+            if not add <= tainted:
+                tainted |= add
+                changed = True
+    for n in ast.walk(f):
+        if isinstance(n, (ast.Return, ast.Yield, ast.YieldFrom)) and carries(n.value):
+            return n
+        if isinstance(n, ast.Lambda) and carries(n.body):
+            return n
+        if isinstance(n, ast.Call) and isinstance(n.func, ast.Attribute) and n.func.attr in SINK_METHODS and root(n.func.value) not in LOG_RECEIVERS:
+            if any(carries(a) for a in list(n.args) + [k.value for k in n.keywords]):
+                return n
+        # persisted on the object: a later record can be computed from it
+        if isinstance(n, (ast.Assign, ast.AnnAssign, ast.AugAssign)) and carries(n.value):
+            tg = n.targets if isinstance(n, ast.Assign) else [n.target]
+            if any(isinstance(t, (ast.Attribute, ast.Subscript)) and root(t) in ("self", "cls") for t in tg):
+                return n
+    return None
+
+
+def _volatile_producers(repo: Repo, ex: ast.AST) -> Set[str]:
+    """Methods whose results feed only the documented volatile `timing` block of a SER (found by role: the names in
+    the `timing=` argument of SER construction, the self-calls they are assigned from, and what those call on self)."""
+    names: Set[str] = set()
+    for c in calls_in(ex):
+        t = kwarg(c, "timing")
+        if t is not None:
+            names |= {x.id for x in ast.walk(t) if isinstance(x, ast.Name)}
+    meths: Set[str] = set()
+    todo = set(names)
+    seen: Set[str] = set()
+    while todo:
+        nm = todo.pop()
+        if nm in seen:
+            continue
+        seen.add(nm)
+        for n in walk_no_nested(ex):
+            if isinstance(n, ast.Assign) and nm in {x for t in n.targets for x in names_stored(t)} and isinstance(n.value, ast.Call):
+                d = dotted_name(n.value.func) or ""
+                if d.startswith("self."):
+                    meths.add(d[5:])
+                    todo |= {x.id for a in n.value.args for x in ast.walk(a) if isinstance(x, ast.Name)}
+    changed = True
+    while changed:
+        changed = False
+        for m in list(meths):
+            f = repo.maybe_func(ORCH, O + m)
+            if f is None:
+                continue
+            for c in calls_in(f):
+                d = dotted_name(c.func) or ""
+                if d.startswith("self.") and d[5:] not in meths:
+                    meths.add(d[5:])
+                    changed = True
+    return meths
+
+
+def _no_identity_in_stream(repo: Repo, R: Report, ex: ast.AST, helper_fns, drivers: Set[str]) -> None:
+    r = R.rule("C10-D2-no-identity-in-stream", "no value derived from object identity, process state, randomness (id, hash, object.__repr__, pid, random) or - outside the documented volatile fields (run id, timing, driver timestamp/seq) - from a clock or a random uuid reaches what the trace-path functions return, persist or write: equal runs yield equal stable fields", 20)
+    volatile = _volatile_producers(repo, ex)
+    if not volatile:
+        raise AnalysisError("execute(): the producers of the volatile timing block were not recognised")
+    scan: Dict[Tuple[str, str], Tuple[ast.AST, bool]] = {}
+    omod = repo.module(ORCH)
+    for qn, f in omod.defs.items():
+        if isinstance(f, FuncNode) and qn.startswith(O) and qn.count(".") == 1 and qn != EXECUTE:
+            scan[(ORCH, qn)] = (f, qn[len(O):] not in volatile)
+    for rel, qn, f in helper_fns:
+        if rel != ORCH:
+            scan.setdefault((rel, qn), (f, True))
+    for rel in (SEM, GRAPH):
+        if repo.has_module(rel):
+            for qn, f in repo.module(rel).defs.items():
+                if isinstance(f, FuncNode) and "." not in qn:
+                    scan.setdefault((rel, qn), (f, True))
+    if repo.has_module(JSONL):
+        for qn, f in repo.module(JSONL).defs.items():
+            if isinstance(f, FuncNode) and qn.count(".") == 1:
+                scan.setdefault((JSONL, qn), (f, False))  # timestamps / seq / file names are the driver's volatile fields
+    for (rel, qn), (f, clock_too) in sorted(scan.items()):
+        bad = None
+        for c in [c for c in ast.walk(f) if isinstance(c, ast.Call)]:
+            kind = _source_kind(c)
+            if kind is None or (kind == "clock" and not clock_too):
+                continue
+            sink = _flows_to_output(f, c)
+            if sink is not None:
+                bad = (c, kind, sink)
+                break
+        if bad:
+            c, kind, sink = bad
+            R.violation(r, rel, qn, norm(stmt_of(c))[:90], f"`{norm(c)[:50]}` ({kind}) flows into `{norm(sink)[:60]}`: a stable trace field now depends on the memory address / process / moment of the run, so two runs of the same configuration on the same payload give different traces", c.lineno)
+        else:
+            R.ok(r, rel, qn, f"{qn}: no identity" + ("/clock" if clock_too else "") + " source reaches the output")
+    # execute itself: the only clock/uuid source is the run id handed to on_pipeline_start
+    run_id_names: Set[str] = set()
+    for c in calls_in(ex):
+        if _orch.is_driver_call(c, drivers, "on_pipeline_start") and len(c.args) >= 2 and isinstance(c.args[1], ast.Name):
+            run_id_names.add(c.args[1].id)
+    for c in [c for c in ast.walk(ex) if isinstance(c, ast.Call)]:
+        kind = _source_kind(c)
+        if kind is None:
+            continue
+        st = stmt_of(c)
+        is_run_id = kind == "clock" and isinstance(st, (ast.Assign, ast.AnnAssign)) and (names_stored(st.targets[0]) if isinstance(st, ast.Assign) else names_stored(st.target)) <= run_id_names and bool(run_id_names)
+        R.check(is_run_id, r, ORCH, EXECUTE, norm(st)[:90], f"`{norm(c)[:50]}` ({kind}) is used in execute for something other than the run id: it can reach a stable field of the records", c.lineno)
+
+
+# ---------------------------------------------------------------------------------------------------------
+# D1: which parameters of a trace helper are live user objects (by declared type, not by spelling)
+# ---------------------------------------------------------------------------------------------------------
+SCALAR_ANN = {"int", "str", "bool", "float", "bytes", "None"}
+CONFIG_PARAMS = {"self", "cls", "trace_opts", "summaries", "maxlen", "max_pairs"}
+
+
+def _ann_names(a: Optional[ast.AST]) -> Set[str]:
+    if a is None:
+        return set()
+    if isinstance(a, ast.Constant) and isinstance(a.value, str):
+        try:
+            a = ast.parse(a.value, mode="eval").body
+        except SyntaxError:
+            return {"?"}
+    return {x.id for x in ast.walk(a) if isinstance(x, ast.Name)} | {x.attr for x in ast.walk(a) if isinstance(x, ast.Attribute)} | {"None" for x in ast.walk(a) if isinstance(x, ast.Constant) and x.value is None}
+
+
+def _opaque_params(f: ast.AST) -> Set[str]:
+    """Parameters declared as an arbitrary object (`Any`, `object`, or nothing): a payload / context value."""
+    out = set()
+    for a in f.args.args + f.args.kwonlyargs:
+        if a.arg in CONFIG_PARAMS:
+            continue
+        names = _ann_names(a.annotation)
+        if not names or names & {"Any", "object"} and not names & {"dict", "Dict", "Mapping", "list", "List", "Sequence", "Iterable", "tuple", "Tuple", "set", "Set"}:
+            out.add(a.arg)
+    return out
+
+
+def _live_params(f: ast.AST) -> Set[str]:
+    """Parameters through which user-defined code can be reached: everything that is not declared a plain scalar
+    and is not one of the helper's own configuration parameters (plus the historical spellings)."""
+    out = set()
+    for a in f.args.args:
+        if a.arg in CONFIG_PARAMS:
+            continue
+        names = _ann_names(a.annotation)
+        if a.arg in LIVE_PARAMS or _opaque_params_one(names):
+            out.add(a.arg)
+    return out
+
+
+def _opaque_params_one(names: Set[str]) -> bool:
+    return not names or bool(names & {"Any", "object"}) and not names <= SCALAR_ANN
